@@ -293,6 +293,7 @@ func verifC17(a *vh.Args) {
 			}
 		}
 	}
+	verifC17Other(e, a, only, capf)
 done:
 	os.Stdout = realStdout
 	e.Finish()
